@@ -30,7 +30,7 @@ type Graph struct {
 
 var ErrBlockMissing = errors.New("verif: block not in store")
 
-var smallKeys = []string{"a", "b", "c", "d", "e", "0", "1", "k"}
+var smallKeys = []string{"a", "b", "c", "d", "e", "0", "1", "k", "01", "+1", "00", "-0", "001"}
 
 func genTreeWithLinks(r *Rand, g *Graph, depth int) Val {
 	k := r.Intn(10)
@@ -244,7 +244,12 @@ func GenSelector(r *Rand, g *Graph, depth int, inRec bool, sloppy bool) Val {
 		return m1("R", body)
 	default:
 		if r.Chance(1, 3) {
-			return m1("~", Map(KV{[]byte("as"), Str("someadl")}, KV{[]byte(">"), next()}))
+			inner := next()
+			if r.Chance(1, 3) {
+				// layered: an InterpretAs clause directly inside another
+				inner = m1("~", Map(KV{[]byte("as"), Str("someadl")}, KV{[]byte(">"), inner}))
+			}
+			return m1("~", Map(KV{[]byte("as"), Str("someadl")}, KV{[]byte(">"), inner}))
 		}
 		if depth > 0 && !r.Chance(1, 4) {
 			return m1("a", Map(KV{[]byte(">"), next()}))
@@ -296,11 +301,15 @@ func SelAll() Val {
 
 // ---- running a walk ----------------------------------------------------------------------------
 
+// ForceReify registers the identity reifier for every RunWalk (set by a check around the walks of one spec).
+var ForceReify bool
+
 type WalkCfg struct {
 	NodeBudget, LinkBudget *int64
 	Once                   bool
 	Start                  []string // segment strings
 	Skip                   map[string]bool
+	Reify                  bool // register an identity reifier under the name the selector generator uses ("someadl")
 }
 
 func PathArg(segs []string) string {
@@ -406,6 +415,11 @@ func RunWalk(g *Graph, spec Val, w WalkCfg, matching bool) WalkObs {
 	}
 	var loads []string
 	lsys := g.LinkSystem(&loads, w.Skip)
+	if w.Reify || ForceReify {
+		lsys.KnownReifiers = map[string]linking.NodeReifier{"someadl": func(_ linking.LinkContext, n datamodel.Node, _ *linking.LinkSystem) (datamodel.Node, error) {
+			return n, nil
+		}}
+	}
 	cfg := &traversal.Config{LinkSystem: lsys, LinkVisitOnlyOnce: w.Once,
 		LinkTargetNodePrototypeChooser: func(datamodel.Link, linking.LinkContext) (datamodel.NodePrototype, error) {
 			return basicnode.Prototype.Any, nil
@@ -486,4 +500,30 @@ func ClassifyWalkErr(err error) string {
 		return "err:load"
 	}
 	return "err:other"
+}
+
+// StripInterpretAs replaces every ExploreInterpretAs clause of a spec by its inner selector: with an identity reifier
+// registered, the walk of the spec and the walk of the stripped spec visit the same things at the same cost.
+func StripInterpretAs(v Val) Val {
+	if v.K == '{' && len(v.M) == 1 && string(v.M[0].K) == "~" {
+		for _, e := range v.M[0].V.M {
+			if string(e.K) == ">" {
+				return StripInterpretAs(e.V)
+			}
+		}
+	}
+	out := v
+	if v.L != nil {
+		out.L = make([]Val, len(v.L))
+		for i, x := range v.L {
+			out.L[i] = StripInterpretAs(x)
+		}
+	}
+	if v.M != nil {
+		out.M = make([]KV, len(v.M))
+		for i, e := range v.M {
+			out.M[i] = KV{e.K, StripInterpretAs(e.V)}
+		}
+	}
+	return out
 }
